@@ -2,8 +2,8 @@
 
    Written once over an abstract number signature OOps K (the float operations the code performs) and
    instantiated with
-     * PrimFloat (IEEE binary64, bit-exact with numpy for + - * / sqrt, comparisons, and np.sum of fewer
-       than 8 entries, which numpy adds sequentially): the instance EXECUTED in the correspondence check;
+     * PrimFloat (IEEE binary64, bit-exact with numpy for + - * / sqrt, comparisons, and np.sum, whose pairwise
+       summation order is reproduced by Base/PyFloat.np_sum): the instance EXECUTED in the correspondence check;
      * R (Proofs/OCP.v): the instance the theorems are about.
    The network (function.response / function.sensitivity) is a parameter: obs it x = (objective value,
    gradient) observed at iteration `it` for design x.  Loops are fuelled recursions; running out of fuel is
@@ -16,10 +16,11 @@ Record OOps (K : Type) := mkOOps {
   o0 : K; ohalf : K;
   oadd : K -> K -> K; osub : K -> K -> K; omul : K -> K -> K; odiv : K -> K -> K;
   oopp : K -> K; osqrt : K -> K; oabs : K -> K;
-  oltb : K -> K -> bool           (* a < b *)
+  oltb : K -> K -> bool;          (* a < b *)
+  osuml : list K -> K             (* np.sum of a 1-D array (binary64: numpy's pairwise order; R: the sum) *)
 }.
 Arguments o0 {K}. Arguments ohalf {K}. Arguments oadd {K}. Arguments osub {K}. Arguments omul {K}.
-Arguments odiv {K}. Arguments oopp {K}. Arguments osqrt {K}. Arguments oabs {K}. Arguments oltb {K}.
+Arguments odiv {K}. Arguments oopp {K}. Arguments osqrt {K}. Arguments oabs {K}. Arguments oltb {K}. Arguments osuml {K}.
 
 (* xmin / xmax: a scalar (broadcast) or one value per variable *)
 Inductive bound (K : Type) := BScalar (k : K) | BVector (l : list K).
@@ -34,8 +35,8 @@ Section OC.
   Definition oclip (a lo hi : K) : K := omin (omax a lo) hi.          (* np.clip = minimum(maximum(a, lo), hi) *)
   Definition bget (b : bound K) (i : nat) : K := match b with BScalar k => k | BVector l => nth i l 0 end.
 
-  (* np.sum of a short 1-D array: sequential from 0.0 *)
-  Definition osum (l : list K) : K := fold_left (oadd P) l 0.
+  (* np.sum *)
+  Definition osum (l : list K) : K := osuml P l.
   (* np.linalg.norm (value semantics; the float summation order of BLAS is not modelled) *)
   Definition onorm (l : list K) : K := osqrt P (fold_left (fun s v => oadd P s (omul P v v)) l 0).
   (* builtin max(dfdx) *)
@@ -158,10 +159,12 @@ Arguments designs {K}. Arguments warns {K}. Arguments stop {K}. Arguments final 
 
 (* ---- the executed instance: IEEE binary64 *)
 From Coq Require Import PrimFloat.
+From Pymoto Require Import Base.PyFloat.
 Definition FloatOOps : OOps float :=
   {| o0 := PrimFloat.zero; ohalf := 0x1p-1%float;
      oadd := PrimFloat.add; osub := PrimFloat.sub; omul := PrimFloat.mul; odiv := PrimFloat.div;
-     oopp := PrimFloat.opp; osqrt := PrimFloat.sqrt; oabs := PrimFloat.abs; oltb := PrimFloat.ltb |}.
+     oopp := PrimFloat.opp; osqrt := PrimFloat.sqrt; oabs := PrimFloat.abs; oltb := PrimFloat.ltb;
+     osuml := np_sum |}.
 
 (* the keyword defaults of minimize_oc (tolx=1e-4, tolf=1e-4, maxit=100, xmin=0.0, xmax=1.0, move=0.2, l1init=0,
    l2init=100000, l1l2tol=1e-4) and the literal 1e-15 of the warning test, as binary64 values *)
